@@ -8,13 +8,16 @@
 //! certificate was issued by which CA is known *by construction* (the harness
 //! creates every CA, leaf and self-signed certificate itself with rcgen).
 //!
-//! Three passes:
+//! Four passes:
 //!  1. `matrix`  – subject client x subject server, the full product of the dimensions;
 //!  2. `probe`   – a harness-owned rustls client (TLS 1.2 and 1.3, verification off,
 //!     recording whether the server sent a CertificateRequest) against every subject
 //!     server configuration: "a server without a client CA never asks for a certificate";
 //!  3. `reload`  – histories  identity A -> handshake -> reload to B -> handshakes, with
-//!     the first connection kept open across the reload.
+//!     the first connection kept open across the reload;
+//!  4. `client-name` – the crate's real client loop (`client::client_main_inner`) over loopback
+//!     TCP against a harness listener: the name it verifies / sends as SNI is the documented
+//!     choice `--tls-server-name` > `--hostname` > URL host.
 
 use crate::Args;
 use crate::report::Report;
@@ -785,7 +788,11 @@ async fn identity_probes(pki: &Pki, ident: &tls::TlsIdentity, which: &str, kind:
         "neither".into()
     };
     facts.push((format!("{stage}.skip.sees"), json!(sees)));
-    if !o.success() {
+    if !o.client_connect_ok {
+        // same key as in the matrix: it is the client that refuses although told to skip verification
+        let class = server_cert_defect(kind, "localhost", "localhost", "system").unwrap_or("valid-cert");
+        sink.viol(format!("client.rejects-server.skip-verify-on.{class}"), format!("skip-verify client cannot connect {stage} (client: {:?}); {c:?}", o.client_err), replay.clone());
+    } else if !o.success() {
         sink.viol(format!("reload.{stage}.handshake-fails"), format!("skip-verify client with a valid client certificate cannot connect {stage} (client: {:?}, server: {:?}); {c:?}", o.client_err, o.server_err), replay.clone());
     } else if sees != which {
         sink.viol(format!("reload.{stage}.sees-identity-{sees}"), format!("a handshake {stage} presents identity {sees}, expected {which} ({kind}); {c:?}"), replay.clone());
@@ -806,7 +813,10 @@ async fn identity_probes(pki: &Pki, ident: &tls::TlsIdentity, which: &str, kind:
     let (o, _) = subject_handshake(ident.load_full(), "localhost", None, None, true).await;
     counters.evals.fetch_add(1, Ordering::Relaxed);
     facts.push((format!("{stage}.nocert.success"), json!(o.success())));
-    if o.success() == ca {
+    if !o.client_connect_ok {
+        let class = server_cert_defect(kind, "localhost", "localhost", "system").unwrap_or("valid-cert");
+        sink.viol(format!("client.rejects-server.skip-verify-on.{class}"), format!("skip-verify client without certificate cannot connect {stage} (client: {:?}); {c:?}", o.client_err), replay);
+    } else if o.success() == ca {
         sink.viol(
             format!("reload.{stage}.certless-client-{}", if ca { "admitted" } else { "rejected" }),
             format!("{stage} the client CA is {}; a client without certificate got success={} (server: {:?}); {c:?}", if ca { "set" } else { "none" }, o.success(), o.server_err),
@@ -844,7 +854,8 @@ async fn run_reload_case(pki: &Pki, c: &ReloadCase, sink: &Sink<'_>, counters: &
         counters.evals.fetch_add(1, Ordering::Relaxed);
         facts.push(("conn1.established".into(), json!(o1.success())));
         let Some((mut c1, mut s1)) = streams.filter(|_| o1.success()) else {
-            sink.viol("reload.before-reload.handshake-fails".into(), format!("first connection cannot be established (client: {:?}, server: {:?}); {c:?}", o1.client_err, o1.server_err), replay.clone());
+            let key = if o1.client_connect_ok { "reload.before-reload.handshake-fails".to_string() } else { format!("client.rejects-server.skip-verify-on.{}", server_cert_defect(&c.a, "localhost", "localhost", "system").unwrap_or("valid-cert")) };
+            sink.viol(key, format!("first connection cannot be established (client: {:?}, server: {:?}); {c:?}", o1.client_err, o1.server_err), replay.clone());
             return facts;
         };
         identity_probes(pki, &ident, "A", &c.a, c.ca_a, c, sink, &mut facts, counters).await;
@@ -888,6 +899,146 @@ async fn run_reload_case(pki: &Pki, c: &ReloadCase, sink: &Sink<'_>, counters: &
         facts
     })
     .await
+}
+
+// ---------------------------------------------------------------------------------------
+// Which name does the real client ask for?  (`--tls-server-name` > `--hostname` > URL host)
+// ---------------------------------------------------------------------------------------
+
+#[derive(Clone, Debug, PartialEq, Eq, Hash)]
+struct NameCase {
+    alg: String,
+    /// SAN of the (trusted-CA) server certificate
+    san: String,
+    hostname: Option<String>,
+    tls_server_name: Option<String>,
+    skip: bool,
+}
+
+impl NameCase {
+    fn to_json(&self) -> Value {
+        json!({"kind": "client-name", "alg": self.alg, "san": self.san, "url_host": "127.0.0.1", "hostname": self.hostname, "tls_server_name": self.tls_server_name, "skip_verify": self.skip})
+    }
+    fn from_json(v: &Value) -> Self {
+        let s = |k: &str| v[k].as_str().map(str::to_string);
+        Self { alg: s("alg").expect("alg"), san: s("san").expect("san"), hostname: s("hostname"), tls_server_name: s("tls_server_name"), skip: v["skip_verify"].as_bool().expect("skip_verify") }
+    }
+    /// Documented precedence (ClientArgs doc comments / README).
+    fn selected(&self) -> &str {
+        self.tls_server_name.as_deref().or(self.hostname.as_deref()).unwrap_or("127.0.0.1")
+    }
+}
+
+#[derive(Clone, Debug, PartialEq, Eq)]
+struct NameObs {
+    /// the TLS handshake completed on the server side and the client went on to send its request
+    client_went_on: bool,
+    sni_seen: Option<String>,
+    server_err: String,
+    no_connection: bool,
+}
+
+/// Runs the crate's real client main loop (`client_main_inner`) against a harness listener
+/// that terminates TLS with a subject-built `ServerConfig` and watches what arrives.
+async fn run_name_case(pki: &Pki, c: &NameCase) -> Result<NameObs, String> {
+    use rusty_penguin_lib::arg::{ClientArgs, Remote, ServerUrl};
+    use std::str::FromStr;
+    catch(async {
+        let id = pki.server("trusted-ca", &c.san);
+        let cfg = Arc::new(tls::make_server_config(&id.cert_path, &id.key_path, None).await.expect("server config"));
+        let l = tokio::net::TcpListener::bind("127.0.0.1:0").await.expect("bind");
+        let port = l.local_addr().expect("addr").port();
+        let args = ClientArgs {
+            server: ServerUrl::from_str(&format!("wss://127.0.0.1:{port}/ws")).expect("server url"),
+            remote: vec![Remote::from_str("127.0.0.1:0:socks").expect("remote")],
+            keepalive: penguin_mux::timing::OptionalDuration::NONE,
+            max_retry_count: 1,
+            max_retry_interval: 10,
+            handshake_timeout: penguin_mux::timing::OptionalDuration::from_secs(10),
+            hostname: c.hostname.as_deref().map(|h| http::HeaderValue::from_str(h).expect("hostname")),
+            tls_server_name: c.tls_server_name.clone(),
+            tls_ca: Some(pki.ca_trusted.path.clone()),
+            tls_skip_verify: c.skip,
+            ..Default::default()
+        };
+        let args: &'static ClientArgs = Box::leak(Box::new(args));
+        let (hr, srx, drx) = rusty_penguin_lib::client::HandlerResources::create();
+        let hr: &'static _ = Box::leak(Box::new(hr));
+        let client = tokio::spawn(async move {
+            let _ = catch(rusty_penguin_lib::client::client_main_inner(args, hr, srx, drx)).await;
+        });
+        let obs = tokio::time::timeout(Duration::from_secs(20), async {
+            let Ok((stream, _)) = l.accept().await else {
+                return NameObs { client_went_on: false, sni_seen: None, server_err: "accept failed".into(), no_connection: true };
+            };
+            match tokio_rustls::TlsAcceptor::from(cfg).accept(stream).await {
+                Err(e) => NameObs { client_went_on: false, sni_seen: None, server_err: e.to_string(), no_connection: false },
+                Ok(mut s) => {
+                    let sni = s.get_ref().1.server_name().map(str::to_string);
+                    let mut b = [0u8; 4];
+                    let went_on = s.read_exact(&mut b).await.is_ok() && &b == b"GET ";
+                    NameObs { client_went_on: went_on, sni_seen: sni, server_err: String::new(), no_connection: false }
+                }
+            }
+        })
+        .await
+        .unwrap_or(NameObs { client_went_on: false, sni_seen: None, server_err: "timeout".into(), no_connection: true });
+        client.abort();
+        let _ = client.await;
+        obs
+    })
+    .await
+}
+
+fn judge_name(c: &NameCase, o: &Result<NameObs, String>, sink: &Sink<'_>) -> bool {
+    let selected = c.selected();
+    let expect_ok = c.skip || c.san == selected;
+    let replay = c.to_json();
+    let ctx = format!("URL host 127.0.0.1, --hostname {:?}, --tls-server-name {:?}, skip_verify={}, certificate is for {:?}; the documented choice is {selected:?}", c.hostname, c.tls_server_name, c.skip, c.san);
+    let o = match o {
+        Err(p) => {
+            sink.viol("client-name.panic".into(), format!("panic: {p}; {ctx}"), replay);
+            return expect_ok;
+        }
+        Ok(o) => o,
+    };
+    if o.no_connection {
+        sink.viol("client-name.no-connection".into(), format!("the client never connected ({}); {ctx}", o.server_err), replay);
+        return expect_ok;
+    }
+    if o.client_went_on && !expect_ok {
+        sink.viol("client.accepts-server.name-mismatch.skip-verify-off".into(), format!("the real client completed TLS and sent its request although the certificate does not match the name it must ask for; {ctx}"), replay.clone());
+    }
+    if !o.client_went_on && expect_ok {
+        sink.viol(
+            format!("client-name.rejects-matching-certificate.{}", if c.tls_server_name.is_some() { "tls-server-name" } else if c.hostname.is_some() { "hostname" } else { "url-host" }),
+            format!("the real client did not complete the handshake (server side: {:?}); {ctx}", o.server_err),
+            replay.clone(),
+        );
+    }
+    if o.client_went_on {
+        // SNI carries DNS names only
+        let want_sni = selected.parse::<std::net::IpAddr>().is_err().then(|| selected.to_string());
+        if o.sni_seen != want_sni {
+            sink.viol("client-name.wrong-sni".into(), format!("SNI on the wire is {:?}, expected {want_sni:?}; {ctx}", o.sni_seen), replay);
+        }
+    }
+    expect_ok
+}
+
+fn name_domain(algs: &[&str]) -> Vec<NameCase> {
+    let mut v = Vec::new();
+    let alg = algs[0];
+    for san in SANS {
+        for hostname in [None, Some("localhost"), Some("other.test")] {
+            for sni in [None, Some("localhost"), Some("other.test")] {
+                for skip in [false, true] {
+                    v.push(NameCase { alg: alg.into(), san: san.into(), hostname: hostname.map(str::to_string), tls_server_name: sni.map(str::to_string), skip });
+                }
+            }
+        }
+    }
+    v
 }
 
 // ---------------------------------------------------------------------------------------
@@ -1016,6 +1167,16 @@ fn replay(args: &Args, v: &Value, mut rep: Report) -> Report {
                     }
                 }
             }
+            Some("client-name") => {
+                let c = NameCase::from_json(v);
+                let o = rt.block_on(run_name_case(&pki, &c));
+                judge_name(&c, &o, &sink);
+                rep.evaluations += 1;
+                match o {
+                    Ok(o) => json!({"verdict": {"client_went_on": o.client_went_on, "sni_seen": o.sni_seen, "no_connection": o.no_connection}, "detail": o.server_err}),
+                    Err(p) => json!({"verdict": {"panicked": p}}),
+                }
+            }
             other => panic!("replay: unknown kind {other:?}"),
         };
         observations.push(o);
@@ -1051,7 +1212,7 @@ pub fn run(args: &Args) -> Report {
     }
     let thorough = args.thorough();
     let algs: Vec<&str> = if thorough { ALGS.to_vec() } else { vec!["p256"] };
-    rep.rule = "complete product: key algorithm x server certificate {trusted-CA leaf, other-CA leaf, self-signed, expired trusted-CA leaf} x (certificate name, requested name) x skip-verify x roots given to the client {trusted CA, other CA, none/system} x client certificate {none, client-CA, other-CA, self-signed} x server client-CA {none, set} x server-config constructor; plus harness-client probes (TLS1.2/1.3) of every server configuration and all reload histories A->B (identities, client-CA before/after, reload method); a case is distinct when its configuration tuple is distinct".into();
+    rep.rule = "complete product: key algorithm x server certificate {trusted-CA leaf, other-CA leaf, self-signed, expired trusted-CA leaf} x (certificate name, requested name) x skip-verify x roots given to the client {trusted CA, other CA, none/system} x client certificate {none, client-CA, other-CA, self-signed} x server client-CA {none, set} x server-config constructor; plus harness-client probes (TLS1.2/1.3) of every server configuration, all reload histories A->B (identities, client-CA before/after, reload method), and the real client main loop over loopback TCP for every (--hostname, --tls-server-name, certificate name, skip-verify) combination; a case is distinct when its configuration tuple is distinct".into();
 
     let t0 = std::time::Instant::now();
     let pkis: Vec<(String, Pki)> = algs.iter().map(|a| ((*a).to_string(), Pki::new(a))).collect();
@@ -1061,7 +1222,10 @@ pub fn run(args: &Args) -> Report {
     let matrix = matrix_domain(&algs, thorough);
     let probes = probe_domain(&algs);
     let reloads = reload_domain(&algs);
-    let distinct = matrix.iter().collect::<HashSet<_>>().len() + probes.iter().collect::<HashSet<_>>().len() + reloads.iter().collect::<HashSet<_>>().len();
+    let names = name_domain(&algs);
+    let distinct = matrix.iter().collect::<HashSet<_>>().len() + probes.iter().collect::<HashSet<_>>().len() + reloads.iter().collect::<HashSet<_>>().len() + names.iter().collect::<HashSet<_>>().len();
+    let n_name_ok = AtomicU64::new(0);
+    let n_name_refused = AtomicU64::new(0);
 
     let rep_m = Mutex::new(rep);
     let sink = Sink { rep: &rep_m };
@@ -1078,11 +1242,13 @@ pub fn run(args: &Args) -> Report {
         M(usize),
         P(usize),
         R(usize),
+        N(usize),
     }
     let mut jobs: Vec<Job> = Vec::new();
     jobs.extend((0..matrix.len()).map(Job::M));
     jobs.extend((0..probes.len()).map(Job::P));
     jobs.extend((0..reloads.len()).map(Job::R));
+    jobs.extend((0..names.len()).map(Job::N));
     let next = AtomicU64::new(0);
 
     std::thread::scope(|s| {
@@ -1111,7 +1277,10 @@ pub fn run(args: &Args) -> Report {
                             } else {
                                 n_refused.fetch_add(1, Ordering::Relaxed);
                             }
-                            if k % (matrix.len() / 4).max(1) == 1 {
+                            // samples: one expected success, one refusal by the client, one by the server
+                            let pick = c.alg == "p256" && c.ctor == "make_tls_identity" && c.san == "localhost" && c.req_name == "localhost" && c.roots == "trusted-ca"
+                                && matches!((c.server_cert.as_str(), c.skip, c.client_cert.as_str(), c.server_client_ca), ("trusted-ca", false, "client-ca", true) | ("other-ca", false, "none", false) | ("self-signed", true, "other-ca", true));
+                            if pick {
                                 samples.lock().unwrap().push(json!({"case": c.to_json(), "expected_success": exp, "observed": o.to_json()}));
                             }
                         }
@@ -1128,6 +1297,19 @@ pub fn run(args: &Args) -> Report {
                             }
                             if k == 5 {
                                 samples.lock().unwrap().push(json!({"case": c.to_json(), "expected_success": exp, "observed": o.to_json()}));
+                            }
+                        }
+                        Job::N(k) => {
+                            let c = &names[k];
+                            let o = rt.block_on(run_name_case(pki_of(&c.alg), c));
+                            counters.evals.fetch_add(1, Ordering::Relaxed);
+                            if judge_name(c, &o, &sink) {
+                                n_name_ok.fetch_add(1, Ordering::Relaxed);
+                            } else {
+                                n_name_refused.fetch_add(1, Ordering::Relaxed);
+                            }
+                            if k == 3 {
+                                samples.lock().unwrap().push(json!({"case": c.to_json(), "observed": format!("{o:?}")}));
                             }
                         }
                         Job::R(k) => {
@@ -1156,6 +1338,9 @@ pub fn run(args: &Args) -> Report {
     rep.bounds.insert("matrix_cases".into(), json!(matrix.len()));
     rep.bounds.insert("probe_cases".into(), json!(probes.len()));
     rep.bounds.insert("reload_histories".into(), json!(reloads.len()));
+    rep.bounds.insert("client_name_selection_cases".into(), json!(names.len()));
+    rep.extra.insert("client_name_expected_accept".into(), json!(n_name_ok.load(Ordering::Relaxed)));
+    rep.extra.insert("client_name_expected_refuse".into(), json!(n_name_refused.load(Ordering::Relaxed)));
     rep.bounds.insert("name_pairs(san,requested)".into(), json!(names_for(thorough)));
     rep.bounds.insert("server_cert_kinds".into(), json!(SERVER_KINDS));
     rep.bounds.insert("client_cert_kinds".into(), json!(CLIENT_KINDS));
@@ -1187,7 +1372,7 @@ pub fn run(args: &Args) -> Report {
     if (s == 0 || r == 0) && rep.violations.is_empty() {
         rep.machinery_error = Some(format!("degenerate run: {s} successful / {r} refused handshakes observed"));
     }
-    if rep.evaluations < (matrix.len() + probes.len() + reloads.len()) as u64 {
+    if rep.evaluations < (matrix.len() + probes.len() + reloads.len() + names.len()) as u64 {
         rep.machinery_error = Some("not every case was executed".into());
     }
     rep
